@@ -216,6 +216,7 @@ class EvoCmdSuite(ProgBaseSuite):
 
     def gen(self, tier, seed):
         rng = random.Random(seed + 99)
+        rng_int = random.Random(seed + 9901)  # separate stream (all-int volume lists): the other draws stay as they were
         cases = []
         n = 260 if tier == "quick" else 6000
         for i in range(n):
@@ -271,6 +272,10 @@ class EvoCmdSuite(ProgBaseSuite):
                     else:
                         vol = {"t": "list", "v": [fs(v) for v in vols]}
                         vv = vols
+                        if all(v.denominator == 1 for v in vols) and rng_int.random() < (0.4 if nw > 1 else 0.2):
+                            # per-tip volumes as a list of Python ints (about a tenth of the lists): numpy keeps the array
+                            # integer and the command text shows "5" instead of "5.0"; same numbers for the shadow
+                            vol = {"t": "list", "v": [{"int": int(v)} for v in vols]}
                     if rng.random() < 0.04:
                         vol = {"t": "scalar", "v": rng.choice(["nan", "inf", {"bad": "none"}])}
                     (sh.remove if asp else sh.add)(k, wells, vv)
